@@ -906,3 +906,11 @@ def run(chk, replay=None):
         "real-maximum reservoirs (10000 / 20000 / 100000) are judged by the monitors only (the list-based heap model is "
         "run up to capacity 200)",
     ]
+
+    # ---- stage 2 (lead): the negotiated limits on the REAL processor over several harvest periods --
+    # per-type and combined harvests with more offers than the limit; the capacity monitor
+    # (ProcMonitor.V_CAPACITY) judges every event payload the processor sends
+    if replay is None or "histories" in (json.load(open(replay)) if replay else {}):
+        import proccheck
+        proccheck.run_stage(chk, {"capacity": 6, "all_ok": 1, "mixed": 1}, 70 if chk.tier == "quick" else 1500, [601],
+                            name="c05proc")
